@@ -1288,16 +1288,19 @@ package reftable
 //@ spec curOK(cur map[string]*Reader, reuseOpen bool) bool = forall k string :: haskey(cur, k) ==> cur[k] != nil && cur[k].name == k && cur[k].src != nil && !fresh(cur[k]) && !isLock(k) && (!reuseOpen ==> retired[k])
 //@ spec curOpen(cur map[string]*Reader) bool = forall k string :: haskey(cur, k) ==> !rdClosed[cur[k]]
 
-// trusted (clock, retry loop, reflect.DeepEqual): reads the list, calls reloadOnce with it, and on ENOENT reads the list
-// again and retries if it changed; finally rebuilds the merged view over st.stack. Assumed: no I/O fault and no 2.5 s
-// livelock, table files of sane size. Its call of reloadOnce is assumed to meet reloadOnce's requires (the names passed
-// are the ones just read); the precondition on reuseOpen is handed on to the callers.
+// Postconditions trusted (clock, retry loop, reflect.DeepEqual; assumed: no I/O fault and no 2.5 s livelock, table files
+// of sane size) - but the body is walked (`checkcalls`): every call it makes must meet the callee's precondition, in
+// particular reloadOnce must be given the names that were just read from tables.list, on every iteration of the retry loop.
+// The precondition on reuseOpen is handed on to the callers.
 //@ func (*Stack).reload
-//@   trusted
+//@   checkcalls
+//@   props C05 C06 C10
 //@   requires wfStack(st)
 //@   requires[no-reuse-means-all-replaced] !reuseOpen ==> (forall j int :: 0 <= j && j < len(st.stack) ==> retired[st.stack[j].name])
 //@   modifies st.stack, st.merged, rdClosed, tblExists, listNames, listLen, lastReadNames, lastReadLen, buflen, bufdata, lastDelta, lastSought, seekOn, seekName, seekIdx, yielded, stream
 //@   ensures wfStack(st) && listStable()
+//@   loop 1 invariant[retry] wfStack(st) && (!reuseOpen ==> (forall j int :: 0 <= j && j < len(st.stack) ==> retired[st.stack[j].name]))
+//@   loop 2 invariant[tabs] -1 <= rangeindex
 //@   ensures[gc-keeps-listed-and-unknown] forall p string :: old(tblExists[p]) && !tblExists[p] ==> (exists j int :: 0 <= j && j < old(len(st.stack)) && p == pathJoin(theDir, old(st.stack[j].name)))
 //@   ensures old(held[listLock()]) ==> namesMatch(st)
 //@   ensures st.merged != nil && len(st.merged.stack) == len(st.stack) && (forall i int :: 0 <= i && i < len(st.stack) ==> st.stack[i].src != nil) && (forall i int :: 0 <= i && i < len(st.merged.stack) ==> st.merged.stack[i] != nil)
